@@ -720,6 +720,24 @@ func c19Main(args []string) error {
 			}
 		}
 		return nil
+	case "late":
+		// a party that starts its Connect (its hello) a long time after it joined: vh c19 late results ms
+		out, err := newND(args[1])
+		if err != nil {
+			return err
+		}
+		defer out.close()
+		ms := 12500
+		if len(args) > 2 {
+			fmt.Sscan(args[2], &ms)
+		}
+		r, err := c19Free(0, 3, 2, rng, "Hello", time.Duration(ms)*time.Millisecond)
+		if err != nil {
+			return err
+		}
+		r.Class = fmt.Sprintf("slow:late-starter-%ds", ms/1000)
+		out.put(r)
+		return nil
 	case "slow":
 		// one party is slow at one scheduling point: every timing of the parties must still form the mesh
 		out, err := newND(args[1])
